@@ -1488,11 +1488,28 @@ pub fn feature_systematic(tls_seed: Option<&[u8]>) -> Vec<Vec<u64>> {
     for i in 0..=full.len() {
         out.push(c1(19, &full[..i]));
     }
+    // WebRTC Noise reply: every declared length against every amount of data
+    for l in [0u64, 1, 31, 32, 79, 80, 81, 96, 200, 65535] {
+        for have in [0usize, 1, 31, 32, 80, 96, 200, 300] {
+            let mut b = (l as u16).to_be_bytes().to_vec();
+            b.extend(vec![0xa5u8; have]);
+            out.push(c1(25, &b));
+        }
+    }
+    for b in [vec![], vec![0u8], vec![0xff]] {
+        out.push(c1(25, &b));
+    }
     out
 }
 pub fn feature_random(rng: &mut Rng, tls_seed: Option<&[u8]>) -> Vec<u64> {
     match tls_seed {
         Some(der) if rng.chance(50) => c1(18, &tls_mutant(rng, der)),
+        _ if rng.chance(15) => {
+            let mut b = (rng.pick(&[0u64, 32, 80, 96, 300, 65535]) as u16).to_be_bytes().to_vec();
+            let n = rng.below(400) as usize;
+            b.extend(rand_bytes(rng, n));
+            c1(25, &b)
+        }
         _ => c1(19, &webrtc_wire(rng)),
     }
 }
@@ -1799,7 +1816,14 @@ pub fn random_case(rng: &mut Rng) -> Vec<u64> {
             let b = if rng.chance(30) { mutate_bytes(rng, b) } else { b };
             c1(11, &b)
         }
-        _ => rt_case(rng),
+        91..=94 => gen_net::random(rng),
+        _ => {
+            if rng.chance(15) {
+                gen_net::rt_random(rng)
+            } else {
+                rt_case(rng)
+            }
+        }
     }
 }
 
@@ -1808,6 +1832,7 @@ pub fn random_case(rng: &mut Rng) -> Vec<u64> {
 pub fn systematic(thorough: bool) -> Vec<Vec<u64>> {
     let mut out = Vec::new();
     let mut rng = Rng::derive(0xC19);
+    gen_net::systematic(&mut out, thorough);
     noise_systematic(&mut out, thorough);
     codec_systematic(&mut out);
     select_systematic(&mut out);
@@ -1924,6 +1949,19 @@ pub fn systematic(thorough: bool) -> Vec<Vec<u64>> {
             out.push(c_frames(None, &b));
         }
         web_systematic(&mut out);
+        // round trip of an ls response for every length of the first name (the length prefix of
+        // a 46-byte name is '/', which makes the encoding look like a single protocol name)
+        for n in 1..=130usize {
+            let mut name = vec![b'/'];
+            name.extend(vec![b'a'; n - 1]);
+            let mut c = vec![20, 20, 4, 2];
+            el(&mut c, &name);
+            el(&mut c, b"/b");
+            out.push(c);
+            let mut c = vec![20, 20, 4, 1];
+            el(&mut c, &name);
+            out.push(c);
+        }
         // ls response with every extreme entry length
         for v in all_extremes() {
             let mut b = vec![3, b'/', b'a', b'\n'];
@@ -1953,3 +1991,6 @@ pub fn systematic(thorough: bool) -> Vec<Vec<u64>> {
     }
     out
 }
+
+#[path = "gen_net.rs"]
+mod gen_net;
